@@ -228,3 +228,79 @@ Proof.
   - destruct (cleanup_facts st p Hw) as [_ [H _]]. exact (H _ Hin).
   - now apply cleanup_load_stable.
 Qed.
+
+(* ------------------------------------------------------------------ locks held by others *)
+Lemma unlocked_nil : forall ts, unlocked [] ts = ts.
+Proof.
+  unfold unlocked. induction ts as [|t r IH]; [reflexivity|]. cbn [filter]. unfold is_locked at 1.
+  cbn [existsb negb]. now rewrite IH.
+Qed.
+
+Lemma run_phases_l_nil : forall fuel st p, run_phases_l [] fuel st p = run_phases fuel st p.
+Proof.
+  induction fuel as [|f IH]; intros st p; simpl; [reflexivity|]. rewrite unlocked_nil.
+  destruct (exec_all st (l_tasks (load st p))) as [st1 ex]. now rewrite IH.
+Qed.
+
+(* every phase loads [load st p] - the locks play no part in what is loaded (in particular in whether a
+   compound is collapsed) - and runs the loaded tasks whose lock is free *)
+Lemma run_phases_l_step : forall locks f st p,
+  run_phases_l locks (S f) st p =
+  let l := load st p in
+  let '(st1, ex) := exec_all st (unlocked locks (l_tasks l)) in
+  if l_hasbarrier l then let '(st2, exs) := run_phases_l locks f st1 p in (st2, ex :: exs)
+  else (st1, [ex]).
+Proof. reflexivity. Qed.
+
+Lemma exec_task_lookup_other : forall st t u, tid_of t <> u -> lookup (fst (exec_task st t)) u = lookup st u.
+Proof.
+  intros st t u Hn. unfold exec_task. destruct (stored st (tid_of t)); [reflexivity|].
+  destruct (resolve_list (lookup st) (targs t)); [|reflexivity]. simpl.
+  destruct (Pos.eqb_spec (tid_of t) u); [contradiction | reflexivity].
+Qed.
+
+Lemma exec_all_lookup_other : forall ts st u, (forall t, In t ts -> tid_of t <> u) ->
+  lookup (fst (exec_all st ts)) u = lookup st u.
+Proof.
+  induction ts as [|t r IH]; intros st u H; simpl; [reflexivity|].
+  pose proof (exec_task_lookup_other st t u (H t (or_introl eq_refl))) as H1.
+  destruct (exec_task st t) as [st1 e1]. simpl in H1.
+  specialize (IH st1 u (fun x Hx => H x (or_intror Hx))).
+  destruct (exec_all st1 r) as [st2 e2]. simpl in *. congruence.
+Qed.
+
+Lemma unlocked_not_locked : forall locks ts t, In t (unlocked locks ts) -> is_locked locks (tid_of t) = false.
+Proof.
+  intros locks ts t H. unfold unlocked in H. apply filter_In in H. destruct H as [_ H].
+  now apply negb_true_iff in H.
+Qed.
+
+(* whatever the program and the store: a task whose lock someone else holds gets no result from this worker,
+   and a result it has is left alone *)
+Lemma run_phases_l_locked_untouched : forall locks fuel st p u, is_locked locks u = true ->
+  lookup (fst (run_phases_l locks fuel st p)) u = lookup st u.
+Proof.
+  intros locks. induction fuel as [|f IH]; intros st p u Hu; simpl; [reflexivity|].
+  assert (H1 : lookup (fst (exec_all st (unlocked locks (l_tasks (load st p))))) u = lookup st u).
+  { apply exec_all_lookup_other. intros t Ht E. apply unlocked_not_locked in Ht. congruence. }
+  destruct (exec_all st (unlocked locks (l_tasks (load st p)))) as [st1 ex]. simpl in H1.
+  destruct (l_hasbarrier (load st p)); [|exact H1].
+  specialize (IH st1 p u Hu). destruct (run_phases_l locks f st1 p) as [st2 exs]. simpl in *. congruence.
+Qed.
+
+Lemma run_phases_l_extends : forall locks fuel st p, extends st (fst (run_phases_l locks fuel st p)).
+Proof.
+  intros locks. induction fuel as [|f IH]; intros st p; simpl; [apply extends_refl|].
+  pose proof (exec_all_extends (unlocked locks (l_tasks (load st p))) st) as H1.
+  destruct (exec_all st (unlocked locks (l_tasks (load st p)))) as [st1 ex]. simpl in H1.
+  destruct (l_hasbarrier (load st p)); [|exact H1].
+  specialize (IH st1 p). destruct (run_phases_l locks f st1 p) as [st2 exs]. simpl in *.
+  eapply extends_trans; eauto.
+Qed.
+
+Lemma run_phases_l_locked : forall locks fuel st p,
+  (forall u, is_locked locks u = true -> lookup (fst (run_phases_l locks fuel st p)) u = lookup st u) /\
+  extends st (fst (run_phases_l locks fuel st p)).
+Proof.
+  intros locks fuel st p. split; [intros u Hu; now apply run_phases_l_locked_untouched | apply run_phases_l_extends].
+Qed.
